@@ -1,9 +1,265 @@
-From Coq Require Import List ZArith Bool Lia.
+(* Lemmas about the Pauli-algebra model (Disc/PauliAlgModel.v). *)
+From Coq Require Import List ZArith Bool Lia Ring Permutation.
 From PLV Require Import Disc.PauliAlgModel.
 Import ListNotations.
 Open Scope Z_scope.
 
+(* ================================================================== Gaussian integers form a ring *)
+Ltac gz := intros; repeat match goal with x : GZ |- _ => destruct x end;
+           unfold csub, cadd, cmul, cneg, c0, c1; cbn [fst snd]; f_equal; ring.
+
+Lemma cadd_comm x y : cadd x y = cadd y x. Proof. gz. Qed.
+Lemma cadd_assoc x y z : cadd x (cadd y z) = cadd (cadd x y) z. Proof. gz. Qed.
+Lemma cadd_0_l x : cadd c0 x = x. Proof. gz. Qed.
+Lemma cadd_0_r x : cadd x c0 = x. Proof. gz. Qed.
+Lemma cmul_comm x y : cmul x y = cmul y x. Proof. gz. Qed.
+Lemma cmul_assoc x y z : cmul x (cmul y z) = cmul (cmul x y) z. Proof. gz. Qed.
+Lemma cmul_1_l x : cmul c1 x = x. Proof. gz. Qed.
+Lemma cmul_0_l x : cmul c0 x = c0. Proof. gz. Qed.
+Lemma cmul_0_r x : cmul x c0 = c0. Proof. gz. Qed.
+Lemma cmul_add_l x y z : cmul (cadd x y) z = cadd (cmul x z) (cmul y z). Proof. gz. Qed.
+Lemma cmul_add_r x y z : cmul x (cadd y z) = cadd (cmul x y) (cmul x z). Proof. gz. Qed.
+Lemma csub_def x y : csub x y = cadd x (cneg y). Proof. reflexivity. Qed.
+Lemma cadd_neg x : cadd x (cneg x) = c0. Proof. gz. Qed.
+
+Definition gz_ring : ring_theory c0 c1 cadd cmul csub cneg (@eq GZ).
+Proof.
+  constructor.
+  - exact cadd_0_l. - exact cadd_comm. - exact cadd_assoc. - exact cmul_1_l. - exact cmul_comm.
+  - exact cmul_assoc. - exact cmul_add_l. - exact csub_def. - exact cadd_neg.
+Qed.
+Add Ring GZring : gz_ring.
+
+Lemma ceqb_eq x y : ceqb x y = true <-> x = y.
+Proof.
+  destruct x as [a b], y as [c d]; unfold ceqb; cbn [fst snd]. rewrite andb_true_iff, !Z.eqb_eq.
+  split; [intros [-> ->]; reflexivity | intros H; inversion H; auto].
+Qed.
+
+Lemma iph_mod k : iph k = iph (k mod 4).
+Proof. unfold iph. rewrite Z.mod_mod by lia. reflexivity. Qed.
+
+Lemma iph_add a b : iph (a + b) = cmul (iph a) (iph b).
+Proof.
+  unfold iph. rewrite Zplus_mod.
+  pose proof (Z.mod_pos_bound a 4 ltac:(lia)) as Ha. pose proof (Z.mod_pos_bound b 4 ltac:(lia)) as Hb.
+  set (x := a mod 4) in *. set (y := b mod 4) in *.
+  assert (Hx : x = 0 \/ x = 1 \/ x = 2 \/ x = 3) by lia.
+  assert (Hy : y = 0 \/ y = 1 \/ y = 2 \/ y = 3) by lia.
+  destruct Hx as [-> | [-> | [-> | ->]]], Hy as [-> | [-> | [-> | ->]]]; reflexivity.
+Qed.
+
+Lemma iph_0 : iph 0 = c1. Proof. reflexivity. Qed.
+
+(* ================================================================== sums *)
+Lemma csum_cons x l : csum (x :: l) = cadd x (csum l). Proof. reflexivity. Qed.
+Lemma csum_nil : csum [] = c0. Proof. reflexivity. Qed.
+
+Lemma csum_app l1 l2 : csum (l1 ++ l2) = cadd (csum l1) (csum l2).
+Proof.
+  induction l1 as [| x l IH]; cbn [app]; rewrite ?csum_cons, ?csum_nil; [ring | rewrite IH; ring].
+Qed.
+
+Lemma csum_scale {A} u (g : A -> GZ) l : csum (map (fun k => cmul u (g k)) l) = cmul u (csum (map g l)).
+Proof. induction l as [| x l IH]; cbn [map]; rewrite ?csum_cons, ?csum_nil; [ring | rewrite IH; ring]. Qed.
+
+Lemma csum_add {A} (f g : A -> GZ) l :
+  csum (map (fun k => cadd (f k) (g k)) l) = cadd (csum (map f l)) (csum (map g l)).
+Proof. induction l as [| x l IH]; cbn [map]; rewrite ?csum_cons, ?csum_nil; [ring | rewrite IH; ring]. Qed.
+
+Lemma csum_zero {A} (l : list A) : csum (map (fun _ => c0) l) = c0.
+Proof. induction l as [| x l IH]; cbn [map]; rewrite ?csum_cons, ?csum_nil; [reflexivity | rewrite IH; ring]. Qed.
+
+Lemma csum_ext {A} (f g : A -> GZ) l : (forall x, In x l -> f x = g x) -> csum (map f l) = csum (map g l).
+Proof.
+  induction l as [| x l IH]; intros H; cbn [map]; [reflexivity |].
+  rewrite !csum_cons, (H x (or_introl eq_refl)), IH; [reflexivity | intros y Hy; apply H; right; exact Hy].
+Qed.
+
+Lemma bits_length n : forall r, In r (bits n) -> length r = n.
+Proof.
+  induction n as [| n IH]; cbn [bits]; intros r H.
+  - destruct H as [<- | []]; reflexivity.
+  - apply in_app_or in H. destruct H as [H | H]; apply in_map_iff in H; destruct H as [r' [<- H]];
+      cbn [length]; f_equal; apply IH; exact H.
+Qed.
+
+(* ================================================================== the table *)
 Lemma table_ok_l : forall p q a b,
   csum (map (fun k => cmul (mat1 p a k) (mat1 q k b)) [false; true]) =
   cmul (iph (fst (mul1 p q))) (mat1 (snd (mul1 p q)) a b).
 Proof. intros p q a b; destruct p, q, a, b; reflexivity. Qed.
+
+Lemma mul1_PI_phase p q : snd (mul1 p q) = PI -> fst (mul1 p q) = 0.
+Proof. destruct p, q; cbn; intros H; try reflexivity; discriminate H. Qed.
+
+Lemma mul1_I_l q : mul1 PI q = (0, q). Proof. destruct q; reflexivity. Qed.
+Lemma mul1_I_r p : mul1 p PI = (0, p). Proof. destruct p; reflexivity. Qed.
+
+(* ================================================================== full words: Kronecker mixed product *)
+Lemma mmul_S n M N a r b c :
+  mmul (S n) M N (a :: r) (b :: c) =
+  cadd (csum (map (fun k => cmul (M (a :: r) (false :: k)) (N (false :: k) (b :: c))) (bits n)))
+       (csum (map (fun k => cmul (M (a :: r) (true :: k)) (N (true :: k) (b :: c))) (bits n))).
+Proof. unfold mmul. cbn [bits]. rewrite map_app, csum_app, !map_map. reflexivity. Qed.
+
+Lemma full_mul_hom_l : forall l1 l2 r c,
+  length l2 = length l1 -> length r = length l1 -> length c = length l1 ->
+  mmul (length l1) (kmat l1) (kmat l2) r c =
+  cmul (iph (fst (fmul l1 l2))) (kmat (snd (fmul l1 l2)) r c).
+Proof.
+  induction l1 as [| p l1 IH]; intros l2 r c H2 Hr Hc;
+    destruct l2 as [| q l2]; try discriminate H2; destruct r as [| a r]; try discriminate Hr;
+    destruct c as [| b c]; try discriminate Hc.
+  - reflexivity.
+  - cbn [length] in *. injection H2 as H2. injection Hr as Hr. injection Hc as Hc.
+    rewrite mmul_S. cbn [fmul fst snd kmat].
+    rewrite (csum_ext _ (fun k => cmul (cmul (mat1 p a false) (mat1 q false b)) (cmul (kmat l1 r k) (kmat l2 k c))))
+      by (intros; ring).
+    rewrite (csum_ext (fun k => cmul (cmul (mat1 p a true) (kmat l1 r k)) _)
+                      (fun k => cmul (cmul (mat1 p a true) (mat1 q true b)) (cmul (kmat l1 r k) (kmat l2 k c))))
+      by (intros; ring).
+    rewrite !csum_scale. fold (mmul (length l1) (kmat l1) (kmat l2) r c).
+    rewrite (IH l2 r c H2 Hr Hc). rewrite iph_add.
+    pose proof (table_ok_l p q a b) as T. cbn [map] in T. rewrite !csum_cons, csum_nil in T.
+    transitivity (cmul (cadd (cmul (mat1 p a false) (mat1 q false b)) (cadd (cmul (mat1 p a true) (mat1 q true b)) c0))
+                       (cmul (iph (fst (fmul l1 l2))) (kmat (snd (fmul l1 l2)) r c))); [ring |].
+    rewrite T. ring.
+Qed.
+
+(* ================================================================== words: equality test *)
+Lemma p1_eqb_eq p q : p1_eqb p q = true <-> p = q.
+Proof. destruct p, q; cbn; split; intros H; try reflexivity; discriminate H. Qed.
+
+Lemma weqb_eq : forall a b, weqb a b = true <-> a = b.
+Proof.
+  induction a as [| [i p] a IH]; destruct b as [| [j q] b]; cbn [weqb]; try (split; [discriminate | discriminate]).
+  - split; reflexivity.
+  - rewrite !andb_true_iff, Z.eqb_eq, p1_eqb_eq, IH. split.
+    + intros [[-> ->] ->]; reflexivity.
+    + intros H; inversion H; auto.
+Qed.
+
+Lemma weqb_refl a : weqb a a = true. Proof. apply weqb_eq; reflexivity. Qed.
+
+(* ================================================================== sentences: linear functionals *)
+Lemma lin_supd h w x : forall s, lin h (supd w x s) = cadd (lin h s) (cmul x (h w)).
+Proof.
+  induction s as [| [w' x'] s IH]; cbn [supd lin]; [ring |].
+  destruct (weqb w w') eqn:E; cbn [lin].
+  - apply weqb_eq in E; subst w'. ring.
+  - rewrite IH. ring.
+Qed.
+
+Lemma lin_sadd_into h : forall l acc, lin h (sadd_into acc l) = cadd (lin h acc) (lin h l).
+Proof.
+  induction l as [| [w x] l IH]; intros acc; cbn [sadd_into lin]; [ring |].
+  rewrite IH, lin_supd. ring.
+Qed.
+
+Lemma lin_sadd h a b : lin h (sadd a b) = cadd (lin h a) (lin h b).
+Proof. unfold sadd. destruct (length a <? length b)%nat; rewrite lin_sadd_into; ring. Qed.
+
+Lemma lin_smul h x : forall s, lin h (smul x s) = cmul x (lin h s).
+Proof. induction s as [| [w y] s IH]; cbn [smul map lin fst snd]; [ring |]. fold (smul x s). rewrite IH. ring. Qed.
+
+Lemma lin_ext h g : forall s, (forall w x, In (w, x) s -> h w = g w) -> lin h s = lin g s.
+Proof.
+  induction s as [| [w x] s IH]; intros H; cbn [lin]; [reflexivity |].
+  rewrite (H w x (or_introl eq_refl)), IH; [reflexivity | intros; eapply H; right; eassumption].
+Qed.
+
+Lemma lin_scale h x : forall s, lin (fun w => cmul x (h w)) s = cmul x (lin h s).
+Proof. induction s as [| [w y] s IH]; cbn [lin]; [ring | rewrite IH; ring]. Qed.
+
+Lemma lin_plus h g : forall s, lin (fun w => cadd (h w) (g w)) s = cadd (lin h s) (lin g s).
+Proof. induction s as [| [w y] s IH]; cbn [lin]; [ring | rewrite IH; ring]. Qed.
+
+Lemma lin_zero : forall s, lin (fun _ => c0) s = c0.
+Proof. induction s as [| [w y] s IH]; cbn [lin]; [reflexivity | rewrite IH; ring]. Qed.
+
+Lemma lin_swap (g : word -> word -> GZ) : forall a b,
+  lin (fun w1 => lin (fun w2 => g w1 w2) b) a = lin (fun w2 => lin (fun w1 => g w1 w2) a) b.
+Proof.
+  induction a as [| [w x] a IH]; intros b; cbn [lin].
+  - rewrite lin_zero. reflexivity.
+  - rewrite IH. rewrite <- lin_scale, <- lin_plus. reflexivity.
+Qed.
+
+Lemma coeff_lin u : forall s, coeff s u = lin (delta u) s.
+Proof.
+  induction s as [| [w x] s IH]; cbn [coeff lin]; [reflexivity |].
+  rewrite IH. unfold delta. destruct (weqb w u); ring.
+Qed.
+
+Lemma smat_lin order r c : forall s, smat order s r c = lin (fun w => wmat order w r c) s.
+Proof. induction s as [| [w x] s IH]; cbn [smat lin]; [reflexivity | rewrite IH; reflexivity]. Qed.
+
+(* --- sums --- *)
+Lemma coeff_sadd a b u : coeff (sadd a b) u = cadd (coeff a u) (coeff b u).
+Proof. rewrite !coeff_lin. apply lin_sadd. Qed.
+
+Lemma coeff_smul x a u : coeff (smul x a) u = cmul x (coeff a u).
+Proof. rewrite !coeff_lin. apply lin_smul. Qed.
+
+Lemma coeff_ssub a b u : coeff (ssub a b) u = csub (coeff a u) (coeff b u).
+Proof. unfold ssub. rewrite coeff_sadd, coeff_smul. destruct (coeff b u) as [p q]. gz. Qed.
+
+Lemma smat_sadd order a b r c : smat order (sadd a b) r c = cadd (smat order a r c) (smat order b r c).
+Proof. rewrite !smat_lin. apply lin_sadd. Qed.
+
+Lemma smat_smul order x a r c : smat order (smul x a) r c = cmul x (smat order a r c).
+Proof. rewrite !smat_lin. apply lin_smul. Qed.
+
+(* --- products --- *)
+Lemma lin_mm_row h w1 x1 : forall b acc,
+  lin h (mm_row w1 x1 acc b) =
+  cadd (lin h acc) (cmul x1 (lin (fun w2 => cmul (iph (fst (wmul w1 w2))) (h (snd (wmul w1 w2)))) b)).
+Proof.
+  induction b as [| [w2 x2] b IH]; intros acc; cbn [mm_row lin]; [ring |].
+  destruct (wmul w1 w2) as [k w] eqn:E. rewrite IH, lin_supd. cbn [fst snd]. ring.
+Qed.
+
+Lemma lin_mm h b : forall a acc, lin h (mm acc a b) = cadd (lin h acc) (bil h a b).
+Proof.
+  unfold bil. induction a as [| [w1 x1] a IH]; intros acc; cbn [mm lin]; [ring |].
+  rewrite IH, lin_mm_row. ring.
+Qed.
+
+Lemma lin_smatmul h a b : lin h (smatmul a b) = bil h a b.
+Proof.
+  unfold smatmul. destruct a as [| e a]; [reflexivity |]. destruct b as [| e' b].
+  - unfold bil. cbn [smatmul]. transitivity (lin (fun _ => c0) (e :: a)); [symmetry; apply lin_zero | apply lin_ext; intros; reflexivity].
+  - rewrite lin_mm. cbn [lin]. ring.
+Qed.
+
+Lemma bil_sadd_l h a b c : bil h (sadd a b) c = cadd (bil h a c) (bil h b c).
+Proof. unfold bil. apply lin_sadd. Qed.
+
+Lemma bil_sadd_r h a b c : bil h c (sadd a b) = cadd (bil h c a) (bil h c b).
+Proof.
+  unfold bil. rewrite <- lin_plus. apply lin_ext. intros w x _. apply lin_sadd.
+Qed.
+
+Lemma bil_smul_l h x a b : bil h (smul x a) b = cmul x (bil h a b).
+Proof. unfold bil. apply lin_smul. Qed.
+
+Lemma bil_smul_r h x a b : bil h a (smul x b) = cmul x (bil h a b).
+Proof. unfold bil. rewrite <- lin_scale. apply lin_ext. intros w y _. apply lin_smul. Qed.
+
+Lemma coeff_smatmul a b u : coeff (smatmul a b) u = bil (delta u) a b.
+Proof. rewrite coeff_lin. apply lin_smatmul. Qed.
+
+Lemma smatmul_distr_l a b c u :
+  coeff (smatmul (sadd a b) c) u = cadd (coeff (smatmul a c) u) (coeff (smatmul b c) u).
+Proof. rewrite !coeff_smatmul. apply bil_sadd_l. Qed.
+
+Lemma smatmul_distr_r a b c u :
+  coeff (smatmul c (sadd a b)) u = cadd (coeff (smatmul c a) u) (coeff (smatmul c b) u).
+Proof. rewrite !coeff_smatmul. apply bil_sadd_r. Qed.
+
+Lemma smatmul_smul_l x a b u : coeff (smatmul (smul x a) b) u = cmul x (coeff (smatmul a b) u).
+Proof. rewrite !coeff_smatmul. apply bil_smul_l. Qed.
+
+Lemma smatmul_smul_r x a b u : coeff (smatmul a (smul x b)) u = cmul x (coeff (smatmul a b) u).
+Proof. rewrite !coeff_smatmul. apply bil_smul_r. Qed.
